@@ -5,8 +5,10 @@ R1: Shutdown.tla (the goroutines RunWithCustomSocket starts stage by stage throu
     be refuted: stages stopped in start order, a dispatch that ignores its context, a backend that ignores its context, a cloud
     stage that returns before the goroutines it started (the code as found, finding 15).
     ForwarderDrain.tla: the end of HttpForwarderHandlerV2.Run (drain loop against waiting merge goroutines), documenting an observation.
+    AccountingProp.tla (second monitor over the same runs, "X03"): the server's own counters -- datagrams received, metrics / events parsed,
+    bad lines -- as the backends (or the upstream of a forwarder) are told them equal what was offered once the system has settled.
 R2: ShutdownSched.tla configurations x schedules.  S2: harness shut (the real statsd.Server over an in-memory socket with recording
-    backends that honour their contexts, an instance cache that answers, virtual time).  R3: ShutdownTrace.tla.
+    backends that honour their contexts, an instance cache that answers, virtual time).  R3: ShutdownTrace.tla and AccountingTrace.tla.
 Not in MANIFEST.json (the property list is fixed); run with ./check X02 --tier quick|thorough."""
 import json
 import os
@@ -84,7 +86,18 @@ def run(ctx):
             keep = ctx.save_replay(v.bad.split("(")[0], {"clause": v.bad, "trace_line": v.line, "run_trace": [json.loads(x) for x in lines[start:v.line]]})
             ctx.violation(v.bad, keep, "ShutdownProp clause %s broken at trace line %d: %s" % (v.bad, v.line, lines[v.line - 1][:300]))
             return
-    for need in ("backend-held", "client-event", "cloud-stage", "datagram", "stop-in-schedule", "mode:forwarder"):
+        # the same runs against the second monitor: the server's own counters, as the backends are told them, add up
+        v = ctx.tlc_validate("AccountingTrace", "AccountingTrace.cfg", tr, r["traces"], label=label + "/accounting", timeout=3000)
+        if v.violated:
+            lines = open(tr).read().splitlines()
+            start = v.line - 1
+            while start > 0 and '"ev":"start"' not in lines[start]:
+                start -= 1
+            keep = ctx.save_replay(v.bad.split("(")[0], {"clause": v.bad, "trace_line": v.line,
+                                                          "run_trace": [json.loads(x) for x in lines[start:v.line] if '"flush' not in x and '"event' not in x]})
+            ctx.violation(v.bad, keep, "AccountingProp clause %s broken at trace line %d: %s" % (v.bad, v.line, lines[v.line - 1][:300]))
+            return
+    for need in ("backend-held", "client-event", "cloud-stage", "datagram", "stop-in-schedule", "mode:forwarder", "settled", "expiry-disabled", "bad-line"):
         if named.get(need, 0) == 0 and not (ctx.violations or locals().get("fails")):  # no vacuity verdict once something was found
             raise vlib.MachineryError("vacuity: %s never reached" % need)
     ctx.cov["named_situations"] = named
